@@ -30,7 +30,8 @@ int main(void) {
       if (!strcmp(ops_tok[1], "NULL")) supla_esp_dns_resolve(NULL, result_cb);
       else if (!strcmp(ops_tok[1], "EMPTY")) supla_esp_dns_resolve("", result_cb);
       else supla_esp_dns_resolve(ops_tok[1], result_cb);
-    } else if ((!strcmp(op, "connected") || !strcmp(op, "reply") || !strcmp(op, "disc")) && !sdk_conn_open) {
+    } else if (((!strcmp(op, "connected") || !strcmp(op, "reply")) && !sdk_conn_open) ||
+               (!strcmp(op, "disc") && !sdk_conn_open && !sdk_disc_pending)) {
       sdk_out("NOCONN"); /* the SDK delivers these callbacks only for a connection that was requested */
     } else if (!strcmp(op, "connected") && ops_ntok == 2) {
       if (sdk_esp_script_len < SDK_ESP_SCRIPT_MAX) sdk_esp_script[sdk_esp_script_len++] = atoi(ops_tok[1]);
@@ -46,6 +47,7 @@ int main(void) {
       }
     } else if (!strcmp(op, "disc")) {
       sdk_conn_open = 0;
+      sdk_disc_pending = 0;
       supla_esp_dns_disconnect_cb(&dns_client_vars.conn);
     } else if (!strcmp(op, "fire") && ops_ntok == 2) {
       fire(!strcmp(ops_tok[1], "timeout") ? &dns_client_vars.timeout_timer : &dns_client_vars.retry_timer);
